@@ -4,6 +4,7 @@ import Y0.Model.Ctf
 import Y0.Model.CtfSimplify
 import Y0.Model.CtfFactor
 import Y0.Driver.Graph
+import Y0.Spec.CtfSem
 
 namespace Y0.Driver
 open Y0 Y0.Ctf Sexp
@@ -49,6 +50,58 @@ def optEventToSexp : Option Event → Sexp
   | none => .atom "none"
   | some e => tagged "some" [eventToSexp e]
 
+/-! ### transfer of a functional SCM (spec cross-check `sem_values`): the harness sends the model it evaluates with its
+own exact evaluator, the driver evaluates `probEventOpt` and `factorisedValue` of Y0/Spec/CtfSem.lean on it -/
+
+def natListOf? : Sexp → Option (List Nat) := asNats?
+
+/-- `(v (pa…) (lat…) (((args…) val) …))` -/
+def mechOf? : Sexp → Option (Nat × List Nat × List Nat × List (List Nat × Nat))
+  | .list [v, pa, lat, .list rows] => do
+      let rows ← rows.mapM (fun r => match r with
+        | .list [k, x] => do pure (← asNats? k, ← asNat? x)
+        | _ => none)
+      pure (← asNat? v, ← asNats? pa, ← asNats? lat, rows)
+  | _ => none
+
+/-- `(model (order…) ((w…)…) (mech…))`: exogenous variable `j` takes the value `x` with probability `w_j[x] / Σ w_j` -/
+def modelOf? : Sexp → Option Fscm.Model
+  | .list [.atom "model", order, .list noise, .list mechs] => do
+      let order ← asNats? order
+      let ws ← noise.mapM asNats?
+      let ms ← mechs.mapM mechOf?
+      let find := fun (v : Nat) => ms.find? (fun m => m.1 == v)
+      pure {
+        order := order
+        noise := ws.map (fun w => let tot := w.foldl (· + ·) 0; w.map (fun x => mkRat (Int.ofNat x) tot))
+        pa := fun v => match find v with | some m => m.2.1 | none => []
+        lat := fun v => match find v with | some m => m.2.2.1 | none => []
+        f := fun v pa lat => match find v with
+          | some m => match m.2.2.2.find? (fun r => r.1 == pa ++ lat) with
+            | some r => r.2
+            | none => 0
+          | none => 0 }
+  | _ => none
+
+/-- `((n v0 v1) …)`: the reading of `-n` and `+n` -/
+def nuOf? : Sexp → Option Fscm.BaseValues
+  | .list rows => do
+      let rows ← rows.mapM (fun r => match r with
+        | .list [n, a, b] => do pure (← asNat? n, ← asNat? a, ← asNat? b)
+        | _ => none)
+      pure (fun n st => match rows.find? (fun r => r.1 == n) with
+        | some r => if st then r.2.2 else r.2.1
+        | none => 0)
+  | _ => none
+
+def cardOf? : Sexp → Option (Nat → Nat)
+  | .list rows => do
+      let rows ← rows.mapM asPair?
+      pure (fun n => match rows.find? (fun r => r.1 == n) with | some r => r.2 | none => 0)
+  | _ => none
+
+def ratToSexp (q : Rat) : Sexp := .list [.atom (toString q.num), .atom (toString q.den)]
+
 end CtfIO
 open CtfIO
 
@@ -64,6 +117,12 @@ def handleCtf (op : String) (args : List Sexp) : Option Sexp := do
       pure (exceptToSexp varsToSexp (ctfAncestors (← parseGraph g) (← varOf? v)))
   | "ancestral_set_after", [g, c, r] =>
       pure (exceptToSexp varsToSexp (ancestralSetAfter (← parseGraph g) (← varsOf? c) (← varOf? r)))
+  | "cond_in_ancestral_set", [g, c, r] =>
+      pure (exceptToSexp ofNats (condInAncestralSet (← parseGraph g) (← varsOf? c) (← varOf? r)))
+  | "merge_common", [_, ss] =>
+      pure (tagged "ok" [setsToSexp (mergeCommon (← setsOf? ss))])
+  | "merge_bidirected", [g, ss] =>
+      pure (tagged "ok" [setsToSexp (mergeBidirected (← parseGraph g) (← setsOf? ss))])
   | "components_from_sets", [g, ss] =>
       pure (tagged "ok" [setsToSexp (componentsFromSets (← parseGraph g) (← setsOf? ss))])
   | "ancestral_components", [g, c, r] =>
@@ -79,6 +138,18 @@ def handleCtf (op : String) (args : List Sexp) : Option Sexp := do
   | "factorize", [g, e] =>
       pure (exceptToSexp (fun r => .list [Codec.exprToSexp r.1, eventToSexp r.2])
         (factorize (← parseGraph g) (← eventOf? e)))
+  | "factorize_classes", [g, e] =>
+      let ev ← eventOf? e
+      pure (exceptToSexp (fun r => .list [boolToSexp r.1, boolToSexp r.2.1, boolToSexp r.2.2, boolToSexp (readableQuery ev)])
+        (factorizeClasses (← parseGraph g) ev))
+  | "sem_values", [g, e, m, nu, card] =>
+      let gr ← parseGraph g
+      let ev ← eventOf? e
+      let M ← modelOf? m
+      let ν ← nuOf? nu
+      let c ← cardOf? card
+      pure (exceptToSexp (fun r => .list [ratToSexp (probEventOpt M ν ev), ratToSexp (factorisedValue M ν c r.1 r.2)])
+        (factorize gr ev))
   | "simplify_factorize", [g, e] =>
       let gr ← parseGraph g
       let ev ← eventOf? e
